@@ -189,8 +189,16 @@ impl<Db: Database> StorageManager<Db> {
 
     /// Commit a transaction in the database.
     pub async fn commit_transaction(&self) -> Result<u64, StorageError> {
-        // this retrieves all the trans operations, and "de-activates" the transaction flag
-        let records = self.transaction.commit_transaction()?;
+        // this retrieves all the trans operations. The transaction flag stays set until the
+        // records have reached the database (and the cache), so that no other transaction can
+        // begin, and read the previous epoch, while this one is still being written.
+        let records = self.transaction.drain_transaction()?;
+        let result = self.write_committed_records(records).await;
+        self.transaction.end_transaction();
+        result
+    }
+
+    async fn write_committed_records(&self, records: Vec<DbRecord>) -> Result<u64, StorageError> {
         let num_records = records.len();
 
         // The transaction is now complete (or reverted) and therefore we can re-enable
